@@ -1,4 +1,4 @@
-(* C18 — property theorems only (statements + [exact]); see Proofs.v for the proofs.
+(* C18 — property theorems only (statements + [exact]); see Proofs.v and Proofs2.v for the proofs.
    Model: Model.v (strToBigInt = big.ParseFloat at 512 bits / AwayFromZero, one multiplication by
    10^decimals rounded the same way, truncation; bigIntToStr by digit-string splitting). *)
 From Coq Require Import List NArith ZArith Lia.
